@@ -27,6 +27,7 @@ import SSEPyVerif.Proofs.Schemes.StampedLevels
 import SSEPyVerif.Proofs.Schemes.DP17Cells
 import SSEPyVerif.Proofs.Schemes.SSE1Stamped
 import SSEPyVerif.Proofs.Schemes.ChainStamped
+import SSEPyVerif.Proofs.Schemes.SSE2Entries
 namespace SSEPy.C04
 open SSEPy.Sch SSEPy.Sch.Chain
 
@@ -209,5 +210,14 @@ theorem SSE1.table_from_primitives (cfg : SSE1Cfg) (lv : Leaves) (K1 K2 K3 K4 : 
           cfg.prfF.call lv.hmac K2 (addLeadingZeros w cfg.l) = .ok eta ∧ bytesXor x eta = .ok p.2) ∨
       (Draw.bytes p.1 ∈ t ∧ Draw.bytes p.2 ∈ t) :=
   SSE1.setup_table_from cfg lv K1 K2 K3 K4 db t t' edb h
+
+
+/-- SSE-2: every entry of the index maps a PRP value `π_K1(x ‖ j)` to an identifier of the database, `x` a stored keyword (a
+    posting) or the all-zero word (a filler).  Keywords enter the index only as arguments of the keyed PRP; the identifiers
+    are stored in the clear, which is what the property exempts SSE-2 for. -/
+theorem SSE2.entries_are_prp_addressed (cfg : SSE2Cfg) (lv : Leaves) (K1 : Bytes) (db : DB) (I : ITable)
+    (h : SSE2.setup cfg lv K1 db = .ok I) :
+    ∀ e ∈ I, ∃ x j, SSE2.addr cfg lv K1 x j = .ok e.1 ∧ (x ∈ db.map (·.1) ∨ x = zeros cfg.l.toNat) ∧ e.2 ∈ db.flatMap (·.2) :=
+  SSE2.setup_entries cfg lv K1 db I h
 
 end SSEPy.C04
